@@ -248,6 +248,61 @@ def array_param_lane(ctx):
         ctx.fail_input('history_independent', 'fitting again / fitting a clone taken after the first fit gives another model (%s=<%s array>)' % (pname, lay), inp)
 
 
+def index_args(name, data):
+  """the training call of `name` with indicators (indices into a preprocessor holding data['X'])"""
+  k = fits.KIND[name]
+  n = len(data['X'])
+  if k == 'unsup':
+    return (np.arange(n),)
+  if k == 'class':
+    return (np.arange(n), data['y'])
+  if k == 'reg':
+    return (np.arange(n), data['yreg'])
+  if k == 'chunks':
+    return (np.arange(n), data['chunks'])
+  if k == 'pairs':
+    return (data['pairs_idx'], data['ypairs'])
+  return (data['trip_idx' if k == 'triplets' else 'quad_idx'],)
+
+
+def preprocessor_history_lane(ctx):
+  """the preprocessor is a hyper-parameter like any other: after set_params(preprocessor=B) a fit with indicators learns from
+  B's points -- the same model as a fresh estimator constructed with B -- whatever was fitted before, through pickle too"""
+  from sklearn.base import clone
+  for ni, name in enumerate(fits.NAMES):
+    rng = np.random.default_rng([ctx.seed, 77, ni])
+    data = fits.make_data(rng, d=int(rng.integers(2, 5)))
+    A = data['X']
+    B = fits.grid(A * 1.5 + rng.standard_normal(A.shape), 6)        # other points under the same indicators
+    dataB = dict(data, X=B)
+    kw = fits.sdml_fix_balance(name, fits.base_kwargs(name, dataB), dataB)
+    kw = fits.sdml_fix_balance(name, kw, data) if name.startswith('SDML') and False else kw
+    args = index_args(name, data)
+    for hist in ('array->array', 'array->list', 'array->pickle->array', 'callable->array'):
+      ctx.count('preprocessor_history', 1)
+      try:
+        with warnings.catch_warnings():
+          warnings.simplefilter('ignore')
+          first = (lambda idx: A[idx]) if hist.startswith('callable') else A
+          est = fits.make_estimator(name, dict(kw, preprocessor=first)).fit(*args)
+          if 'pickle' in hist:
+            est = pickle.loads(pickle.dumps(est))
+          second = B.tolist() if hist.endswith('list') else B
+          est.set_params(preprocessor=second)
+          est.fit(*args)
+          fresh = fits.make_estimator(name, dict(kw, preprocessor=second)).fit(*args)
+          cl = clone(est).fit(*args)
+      except Exception as ex:
+        ctx.fail_input('preprocessor_history', '%s: history %s raises %s' % (name, hist, type(ex).__name__),
+                       dict(estimator=name, history=hist), observed=str(ex)[:200])
+        continue
+      for other, what in ((fresh, 'a fresh estimator constructed with the new preprocessor'), (cl, 'a clone')):
+        if not np.array_equal(np.asarray(est.components_), np.asarray(other.components_), equal_nan=True):
+          ctx.fail_input('preprocessor_history', '%s: fit, set_params(preprocessor=<other array>), fit with the same indicators learns another model than %s (history %s)' % (name, what, hist),
+                         dict(estimator=name, history=hist, A=A.tolist(), B=B.tolist()))
+          break
+
+
 def run(ctx):
   thorough = ctx.tier == 'thorough'
   ctx.rule = ("random operation sequences (length 3..8) over {fit(data_i), set_params, set_threshold, calibrate_threshold, "
@@ -266,6 +321,7 @@ def run(ctx):
     for r in range(reps):
       rng = np.random.default_rng([ctx.seed, fits.NAMES.index(name), r])
       run_history(ctx, name, rng, nsets=int(rng.integers(2, 4)), length=int(rng.integers(3, 9)))
+  preprocessor_history_lane(ctx)
   # pickle round trip followed by clone, for every estimator (listed finding: deprecated-alias sentinel)
   from sklearn.base import clone
   import metric_learn
